@@ -110,7 +110,7 @@ REG["C14"] = {
     "assumptions": ["the selection expression itself (vec![..].into_iter().filter(is_some).min()) is inside execute_all, out of reach: the harness applies "
                     "Option::min to the extracted struct, which is what Iterator::min folds with; anchor checked textually",
                     "Kani/CBMC; rustc's expansion of #[derive(PartialOrd, Ord)] is what is proved (the struct text incl. attributes is copied verbatim)"],
-    "not_decided": ["that the process is really aborted after that long (subprocess + kernel): BOUNDED stand-in only — verif-replay c14 runs 18 real bash executions through StatefulExecutor + BashRunner (per-test 300 ms vs document 5 s and the reverse, each alone, document timeout 0 with and without a per-test limit, no timeout reached, both generous; the slow test case first or second, always followed by one more; in the second position the per-test limit is not written on the test cases but comes from the `defaults` of the execution context) and checks which limit is reported (Index / Total / none), that the outputs stop at the aborted test case and that the 3 s command is cut off within 2.5 s", "skipped-vs-passed accounting after a timeout (bin/commands/test.rs): BOUNDED stand-in only — engine e2e builds the real scrut binary from the working tree and runs 27 generated documents through `scrut test -r json` (slow test case at position 1..3 x {per-test 300 ms; the same limit coming from the document `defaults`; the same with total_timeout 0s; the same under --timeout-seconds 20; total_timeout 1500 ms; the same with a 20 s per-test limit; --timeout-seconds 2}; Cram under --timeout-seconds 2; three documents whose commands finish inside every limit): results [success.., timeout, skipped..] + the other document's success, exit status 50 (0 when nothing times out)",
+    "not_decided": ["that the process is really aborted after that long (subprocess + kernel): BOUNDED stand-in only — verif-replay c14 runs 18 real bash executions through StatefulExecutor + BashRunner, each in a process of its own (per-test 1.2 s vs document 9 s and the reverse, each alone, document timeout 0 with and without a per-test limit, no timeout reached, both generous; the slow test case first or second, always followed by one more; in the second position the per-test limit is not written on the test cases but comes from the `defaults` of the execution context) and checks which limit is reported (Index / Total / none), that the outputs stop at the aborted test case and that the 5 s command is cut off within 4 s", "skipped-vs-passed accounting after a timeout (bin/commands/test.rs): BOUNDED stand-in only — engine e2e builds the real scrut binary from the working tree and runs 27 generated documents through `scrut test -r json` (slow test case at position 1..3 x {per-test 300 ms; the same limit coming from the document `defaults`; the same with total_timeout 0s; the same under --timeout-seconds 20; total_timeout 1500 ms; the same with a 20 s per-test limit; --timeout-seconds 2}; Cram under --timeout-seconds 2; three documents whose commands finish inside every limit): results [success.., timeout, skipped..] + the other document's success, exit status 50 (0 when nothing times out)",
                     "the arithmetic of std::time::Instant (opaque shim: now/add/duration_since carry no contract)", "the value of the default limit"],
     "callsites": [("src/executors/stateful_executor.rs", ".into_iter().filter(|item| item.is_some()).min()")],
 }
@@ -418,5 +418,5 @@ NOT_APPLICABLE = [
     {"property_id": "C12", "reason": "a property of bash executing bash_runner.template; no Rust function's postcondition can state it (DESIGN §10)"},
     {"property_id": "C17", "reason": "reader is serde_yaml (external), writer is format!; an inverse law needs the parser's semantics (DESIGN §10)"},
     {"property_id": "C18", "reason": "filesystem effects and Drop of tempfile::TempDir across process exits; outside any function contract (DESIGN §10)"},
-    {"property_id": "C20", "reason": "commands/test.rs + main.rs over real executions; what matters is the executor's interaction with the OS (DESIGN §10)"},
+    {"property_id": "C20", "reason": "Args::run in commands/test.rs + main.rs over real executions: no function of it is within reach of a contract, and a bounded end-to-end run with nothing proved next to it would be a different technique (DESIGN §10)"},
 ]
